@@ -260,4 +260,4 @@ def run(ctx, rep):
                         if re.search(frx, b.path) and re.search(crx, c):
                             ok, why = True, reason
                 rep.check("C20.e", f"{fn_key(b)}/{c}/{ordn[k]}", ok, where=where(b, bb), what=f"{fn_key(b)}: Result of {c} is {kind}" + (f" [exception: {why}]" if why else ""))
-    rep.floor("C20.e", "file-system call sites in the local backend", n, 8)
+    rep.floor("C20.e", "file-system call sites in the local backend", n, 5)
